@@ -11,3 +11,7 @@ chk("C15", "model_checking",
     "Every plugin/id string over a 12-class alphabet up to a length bound, every length split around the 63-character limit, every device list up to length 3 and six initial maps go through UpdateAnnotations/ParseAnnotations; success results are judged by an independent Kubernetes key rule and by parsing back, failures by map identity. Complete enumeration of the stated finite space.",
     "Trusted: independent annotation-key rule and name grammar; no completeness oracle (the statement allows refusal).",
     "bounded-exhaustive input enumeration vs reference rules", "DESIGN.md §3 C15")
+chk("C05", "model_checking",
+    "Deviation-bounded exhaustive sweep: ~300 (quick) / several thousand (thorough) well-formed base documents over the combinations of optional members, and every single defect of each kind the statement lists at every position (spec level, first/middle/last device, first/last list element; thorough adds all defect pairs on a core), rendered as JSON and YAML and pushed through ParseSpec, ReadSpec, cache load and WriteSpec; verdicts compared with an independent validator over the document tree.",
+    "Trusted: the reference validator (refmodel.SpecTree) transcribed from the statement, cross-checked against the generator's intent on every run (disagreement = exit 2). Documents the statement does not settle (null for optional members, scalar-for-string coercions, v-prefixed versions) are checked for crashes only. YAML renderings that do not denote the same tree for the reader are skipped and counted.",
+    "deviation-bounded exhaustive enumeration of documents vs reference validator", "DESIGN.md §3 C05")
